@@ -171,7 +171,8 @@ def check(model, rep, tier):
 
   # ---------------------------------------------------------------- SRC-TEXT
   pe = model.func(PARSER, 'parse_entity')
-  todo = [(pe, ())]
+  # (the function that produces the text is on the path as well)
+  todo = [(pe, ()), (model.func(IU, 'getimmediatesource'), ())]
   seen = set()
   reaches_parser = {}
   analysed = []
@@ -192,7 +193,8 @@ def check(model, rep, tier):
   # which functions' results reach the parser: in parse_entity the chain is
   # getimmediatesource -> dedent_block -> join -> parse; in _parse_lambda the
   # joined lines go to parse directly and _without_context's text does not.
-  flows_to_parse = {pe.site: True, pl.site: True}
+  flows_to_parse = {pe.site: True, pl.site: True,
+                    model.func(IU, 'getimmediatesource').site: True}
   t_pe = [t for f, t in analysed if f is pe][0]
   for callee, pos, call in t_pe.calls:
     # result of the call assigned to a name that later reaches parse()
